@@ -18,17 +18,19 @@ let lkinds_of kind payload =
 let res_str = function Ok s -> hex_of_str s | Panic -> "PANIC"
 
 let show_etok = function
-  | TId s -> "I" ^ hex_of_str s
-  | TStr s -> "S" ^ hex_of_str s
-  | TBytes bs -> "Y" ^ hex_of_bytes bs
-  | TWord s -> "W" ^ hex_of_str s
-  | TNum s -> "N" ^ hex_of_str s
-  | TParam n -> "P" ^ string_of_int (int_of_n n)
-  | TOp s -> "O" ^ hex_of_str s
-  | TPunct c -> "C" ^ hex_of_str [c]
+  | TkId s -> "I" ^ hex_of_str s
+  | TkStr s -> "S" ^ hex_of_str s
+  | TkBytes bs -> "Y" ^ hex_of_bytes bs
+  | TkWord s -> "W" ^ hex_of_str s
+  | TkNum s -> "N" ^ hex_of_str s
+  | TkParam n -> "P" ^ string_of_int (int_of_n n)
+  | TkOp s -> "O" ^ hex_of_str s
+  | TkPunct c -> "C" ^ hex_of_str [c]
 
 let dispatch (t : string list) : string =
   match t with
+  | "expr" :: b :: rest -> Cases.run_expr (backend_of b) (Sexp.parse (String.concat " " rest))
+  | "stmt" :: b :: rest -> Cases.run_stmt (backend_of b) (Sexp.parse (String.concat " " rest))
   | ["etok"; b; h] ->
       (match eng_tokens (backend_of b) (str_of_hex h) with
        | None -> "LEXFAIL"
@@ -74,7 +76,8 @@ let dispatch (t : string list) : string =
   | [] -> ""
 
 let () =
-  let ic = open_in Sys.argv.(1) in
+  let argi = if Sys.argv.(1) = "--more-parens" then (Cases.more_parens := true; 2) else 1 in
+  let ic = open_in Sys.argv.(argi) in
   let out = Buffer.create 65536 in
   (try
      while true do
